@@ -28,6 +28,9 @@ CHECKS = {
  "C13": ("exploration", "reference-table monitor: one execution per (built-in, argument classes) cell; documentation examples replayed; exit status/stderr observed through the real binary",
          "The full grid of non-graphics built-ins x argument classes (incl. NaN, infinities, -0, huge, empty and non-ASCII strings), sprintf verbs x flags x width x precision x argument types, test with 1..5 arguments, err/errmsg protocol sequences, rand by predicate, all documentation examples with evy:output, and exit status / stderr / stdout of evy run for exit, panic and test cells.",
          "Reference table written from docs/builtins.md; undocumented regions are listed as widenings in the evidence and not judged.", "DESIGN.md §7 C13"),
+ "C04": ("exploration", "exhaustive matrix of tiny programs (target type x value descriptor x context, operator table, literal inference over all element multisets and permutations) judged by transcribed specification rules; acceptance and printed typeof observed on the real parser/evaluator",
+         "Every cell of the assignability matrix over all types up to nesting depth 1 (quick) / 2 (thorough), seven contexts, 13 operators over all ordered type pairs with variable and constant operands, unary/index/slice/field/assertion/condition/range contexts and the inferred type of array and map literals for every multiset of 2-3 element kinds in every order (and repeated runs) is executed once.",
+         "Oracle is a transcription of docs/spec.md; cells the documents leave open are counted and not judged (see evidence).", "DESIGN.md §7 C04"),
  "C06": ("exploration", "metamorphic round-trip monitor: tokens, re-acceptance, tree and recorded behaviour of Format(s) vs s; evy fmt vs library",
          "For thousands of accepted sources (corpus, decorated with comments/blank lines/tabs, accepted token mutants, generated programs) compares the non-whitespace token sequence, the syntax tree and the recorded Platform trace of the formatted text with those of the source, and the real evy fmt with Program.Format.",
          "Tokens compared by (type,value); behaviour compared under fixed inputs/seed with positions stripped; lexer positions trusted only as far as C03 checks them.", "DESIGN.md §7 C06"),
